@@ -50,7 +50,7 @@ static std::vector<Pat> G_ALL;   // every pattern of the current case, for the o
 // one pass over the writable static storage: every 8-byte value is looked up in a table of the patterns' window prefixes
 static std::string scan_static(const std::vector<Pat>& pats) {
     std::unordered_map<uint64_t, std::pair<const Pat*, size_t>> tab;
-    for (auto& p : pats) { if (p.bytes.size() < p.window) continue; for (size_t off = 0; off + p.window <= p.bytes.size(); off++) { if (!window_ok(p, off)) continue; uint64_t v; memcpy(&v, p.bytes.data() + off, 8); tab.emplace(v, std::make_pair(&p, off)); } }
+    for (auto& p : pats) { if (p.bytes.size() < p.window || p.idxw == 2) continue; /* 8-byte windows of 16-bit indices carry too little entropy for a 250 KB haystack */ for (size_t off = 0; off + p.window <= p.bytes.size(); off++) { if (!window_ok(p, off)) continue; uint64_t v; memcpy(&v, p.bytes.data() + off, 8); tab.emplace(v, std::make_pair(&p, off)); } }
     if (tab.empty()) return "";
     for (auto& rg : static_ranges()) for (size_t i = 0; i + 8 <= rg.second; i++) { uint64_t v; memcpy(&v, rg.first + i, 8); auto it = tab.find(v); if (it == tab.end()) continue;
         const Pat& p = *it->second.first; size_t off = it->second.second; if (i + p.window <= rg.second && memcmp(rg.first + i, p.bytes.data() + off, p.window) == 0)
